@@ -82,6 +82,9 @@ class KindAnalysis:
         """reachability over (block, last ControlFlow variant, known boolean temporaries): the
         boolean environment makes the join-switches of `matches!` / `&&` / `||` follow only the
         edge that is feasible on the path taken"""
+        # private helpers extracted from a grammar function or callback (`fn list_item(..)`) are
+        # folded into it; crate-visible grammar functions and Parser methods keep their summaries
+        fn = self.prog.inline(fn, keep=r"parser::Parser::<'input>::", private_only=True)
         work = [(0, None, tuple(sorted((k, v) for k, v in bargs if v != "TEXT")))]  # key -1 carries a known token text
         self._cur_env = {}
         text_params = set(k for k, v in bargs if v == "TEXT")
@@ -110,9 +113,27 @@ class KindAnalysis:
                 elif s[1][0] == 0 and not s[1][1] and s[2][0] == "use":
                     l = op_local(s[2][1])
                     if l is not None:
-                        for (bb, i, rv2, pj) in fn.defs().get(l, []):
-                            if rv2[0] == "agg" and isinstance(rv2[1], list) and rv2[1][1].endswith("ops::ControlFlow"):
-                                rv = rv2[1][2]
+                        if isinstance(env.get(l), str) and env[l].startswith("CF:"):
+                            rv = env[l][3:]  # the ControlFlow value built on this very path
+                        else:
+                            for (bb, i, rv2, pj) in fn.defs().get(l, []):
+                                if rv2[0] == "agg" and isinstance(rv2[1], list) and rv2[1][1].endswith("ops::ControlFlow"):
+                                    rv = rv2[1][2]
+                # an enum value built on this path (`let x = match .. { .. => Some(..), _ => None }`)
+                # and its discriminant: the later `let Some(..) = x else` is decided
+                if not s[1][1] and s[1][0] != 0 and s[2][0] == "agg" and isinstance(s[2][1], list) and s[2][1][0] == "adt" and len(s[2][1]) > 2 and not s[2][1][1].endswith("ops::ControlFlow"):
+                    env[s[1][0]] = "V:" + s[2][1][2]
+                    continue
+                if not s[1][1] and s[2][0] == "discr" and not s[2][1][1] and isinstance(env.get(s[2][1][0]), str) and env[s[2][1][0]].startswith("V:"):
+                    env[s[1][0]] = "D:" + env[s[2][1][0]][2:]
+                    continue
+                # a ControlFlow value held in a temporary (the return slot of an inlined helper)
+                if not s[1][1] and s[1][0] != 0 and s[2][0] == "agg" and isinstance(s[2][1], list) and s[2][1][1].endswith("ops::ControlFlow"):
+                    env[s[1][0]] = "CF:" + s[2][1][2]
+                    continue
+                if not s[1][1] and s[1][0] != 0 and s[2][0] == "use" and op_local(s[2][1]) is not None and isinstance(env.get(op_local(s[2][1])), str):
+                    env[s[1][0]] = env[op_local(s[2][1])]
+                    continue
                 # boolean constant propagation
                 if not s[1][1]:
                     l = s[1][0]
@@ -170,7 +191,10 @@ class KindAnalysis:
                 continue
             if k == "switch":
                 info = fn.switch_info(b)
-                if info and info.get("kind") == "bool" and info["local"] in env:
+                if info and info.get("kind") == "enum" and isinstance(env.get(info["local"]), str) and env[info["local"]].startswith("D:"):
+                    work.append((info["edges"].get(env[info["local"]][2:], info["otherwise"]), rv, envt))
+                    continue
+                if info and info.get("kind") == "bool" and info["local"] in env and isinstance(env[info["local"]], bool):
                     work.append((info["edges"][env[info["local"]]], rv, envt))
                     continue
                 if info and info.get("kind") == "bool" and info["local"] is not None and -(1000 + info["local"]) in env and -1 not in env:
@@ -202,7 +226,7 @@ class KindAnalysis:
                 out.append((i + 1, "TEXT"))  # the callee receives the current token's text
             else:
                 l = op_local(a)
-                if l is not None and l in env:
+                if l is not None and l in env and isinstance(env[l], bool):
                     out.append((i + 1, env[l]))
                 elif l is not None:
                     sd = fn.single_def(l)
@@ -326,6 +350,16 @@ class KindAnalysis:
         return None
 
     def _bool_from_callret(self, fn, c, K):
+        # `a != b` is `PartialEq::ne`: decided like `==` and negated
+        if re.search(r"PartialEq(<[^>]*>)?>?::ne$", c.name) and len(c.args) == 2:
+            class _C:
+                pass
+            c2 = _C()
+            c2.name = re.sub(r"::ne$", "::eq", c.name)
+            c2.args = c.args
+            v = self._bool_from_callret(fn, c2, K)
+            self._last_text_lit = None  # a `!=` test does not pin the text on its true edge
+            return None if v is None else (not v)
         self._last_text_lit = None
         if True:
             n = c.name
